@@ -955,6 +955,11 @@ func callBuiltin(caller *frame, callpos token.Pos, fn *ssa.Builtin, args []value
 			}
 			return arg0
 		}
+		if s, ok := args[1].(symStr); ok {
+			// append([]byte, ...string) []byte with a string of symbolic bytes
+			arg0 := args[0].([]value)
+			return append(arg0, s.b...)
+		}
 		// append([]T, ...[]T) []T
 		if i := caller.i; i.frozen != nil {
 			a0 := args[0].([]value)
@@ -966,6 +971,9 @@ func callBuiltin(caller *frame, callpos token.Pos, fn *ssa.Builtin, args []value
 
 	case "copy": // copy([]T, []T) int or copy([]byte, string) int
 		src := args[1]
+		if ss, ok := src.(symStr); ok {
+			src = append([]value(nil), ss.b...)
+		}
 		if _, ok := src.(string); ok {
 			params := fn.Type().(*types.Signature).Params()
 			src = conv(params.At(0).Type(), params.At(1).Type(), src)
